@@ -456,3 +456,66 @@ func TestC13Response(t *testing.T) {
 		vlib.Sample(map[string]any{"kind": "response-stream", "gen": kind, "head": fmt.Sprintf("%x", head(data)), "reference_ok": ok, "in_grammar": inGrammar, "fragmentation": fcls})
 	})
 }
+
+// ---------------------------------------------------------------------------
+// native fuzz targets (thorough tier); the semantic oracle is inside the target
+
+func FuzzC13Request(f *testing.F) {
+	for _, seed := range [][]byte{vlib.RefEncode("user", "pass", "svc", "realm"), vlib.RefEncode("u", "p", "", ""), {0, 0}, {1, 0}, {1, 1, 'x'}, {0xff, 0xff},
+		vlib.RefEncode(string(bytes.Repeat([]byte{'a'}, 256)), "p", "", ""), append(vlib.RefEncode("u", "p", "s", "r"), "trailing"...)} {
+		f.Add(seed, uint8(3))
+	}
+	f.Fuzz(func(t *testing.T, data []byte, frag uint8) {
+		want, consumed, ok := vlib.RefDecodeRequest(data)
+		var got sasl.Request
+		err := got.Unmarshal(append([]byte(nil), data...))
+		if (err == nil) != ok {
+			t.Fatalf("VIOLATION C13: Unmarshal err=%v, reference ok=%v for %x", err, ok, data)
+		}
+		if ok {
+			if got.Login != want[0] || got.Password != want[1] || got.Service != want[2] || got.Realm != want[3] {
+				t.Fatalf("VIOLATION C13: fields differ from the reference decoder")
+			}
+			re, merr := got.Marshal()
+			if merr != nil || !bytes.Equal(re, data[:consumed]) {
+				t.Fatalf("VIOLATION C13: re-encoding differs from the consumed prefix")
+			}
+		}
+		// fragment independence: chunks of size frag%7+1, EOF with the last data on odd frag
+		var chunks []int
+		for i := 0; i < len(data); i += int(frag%7) + 1 {
+			chunks = append(chunks, int(frag%7)+1)
+		}
+		var got2 sasl.Request
+		err2 := got2.Decode(&scriptReader{data: append([]byte(nil), data...), chunks: chunks, eofWith: frag%2 == 1})
+		if (err2 == nil) != (err == nil) || (err == nil && got2 != got) {
+			t.Fatalf("VIOLATION C13: fragmentation changes the result: %v / %v", err, err2)
+		}
+	})
+}
+
+func FuzzC13Response(f *testing.F) {
+	for _, seed := range [][]byte{vlib.RefEncode("OK"), vlib.RefEncode("NO"), vlib.RefEncode("OK msg"), vlib.RefEncode("NO x"), {0, 1, 'O'}, {0, 0}, vlib.RefEncode("OKAY"), vlib.RefEncode("ok")} {
+		f.Add(seed)
+	}
+	f.Fuzz(func(t *testing.T, data []byte) {
+		wres, wmsg, inGrammar, ok := vlib.RefDecodeResponse(data)
+		var d sasl.Response
+		err := d.Unmarshal(append([]byte(nil), data...))
+		if d.Result && !(ok && wres) {
+			t.Fatalf("VIOLATION C13: positive result for a text that does not start with OK: %x", data)
+		}
+		if (err == nil) != ok {
+			t.Fatalf("VIOLATION C13: Unmarshal err=%v, reference ok=%v for %x", err, ok, data)
+		}
+		if ok && inGrammar && (d.Result != wres || d.Message != wmsg) {
+			t.Fatalf("VIOLATION C13: decoded (%v,%q), reference (%v,%q)", d.Result, d.Message, wres, wmsg)
+		}
+		if ok && inGrammar && len(wmsg) <= 253 {
+			re, merr := d.Marshal()
+			if merr != nil || !bytes.HasPrefix(data, re) {
+				t.Fatalf("VIOLATION C13: re-encoding of a decoded in-grammar response is not a prefix of the input")
+			}
+		}
+	})
+}
